@@ -35,6 +35,11 @@ ON = ["cl", "cl2", "lam", "al", "box", "mk", "deco", "hf"]
 LITS = ["1", "2", "3", "'s'", "'t'", "(1, 2)", "[1, 2]", "[3]", "{'a': 1}", "{'a': 1, 'b': 2}", "{'b': 2, 'a': 1}",
         "{'a': 2}", "None", "2.5", "{'n': {'a': 1}}", "{'n': {'a': 2}}", "{1, 2}"]
 INTS = [1, 2, 3, 5, 7, 11]
+# dict literals whose keys cannot be ordered among themselves (types, None, ints and strs, tuples)
+HETERO = ["{int: 1, str: 2}", "{int: 1, str: 3, float: 2}", "{None: 1, 'a': 2}", "{None: 2, 'a': 2, 1: 3}", "{1: 'x', 'a': 2}",
+          "{(1, 2): 1, 'k': 2, 3: 3}", "{int: 'i', None: 'n', 'a': 'a'}"]
+TABLE_KEYS = ["int", "str", "float", "None", "1", "2", "'a'", "'b'", "(1, 2)", "len"]
+REG_TYPES = ["collections.OrderedDict(a=%d)", "collections.defaultdict(int, a=%d)", "dict(a=%d)", "collections.Counter(a=%d)"]
 # two helper modules written next to every generated module (see c16.py): same function/class names, different behaviour
 EXT_SOURCES = {
     "c16ext_a": "def ext(a=1):\n    return a + 100\nclass Ext:\n    def m(self):\n        return 100\n",
@@ -80,7 +85,25 @@ def gen_item(rng, items, name=None):
         if q < 0.08:
             # PEP 562 module-level __getattr__ / __dir__
             return dict(k="pep562", name=rng.choice(["__getattr__", "__getattr__", "__dir__"]), c=rng.choice(INTS))
-        if q < 0.14:
+        if q < 0.17:
+            return dict(k="data", name=rng.choice(DN), val=rng.choice(HETERO))
+        if q < 0.20:
+            return dict(k="metacls", name="Meta", c=rng.choice(INTS))
+        if q < 0.24:
+            # closure over an instance of a dict (sub)class whose contents change
+            return dict(k="odc", name=rng.choice(["rg", "rg2"]), ty=rng.choice(REG_TYPES), v=rng.choice(INTS), c=rng.choice(INTS))
+        if q < 0.27 and funcs:
+            return dict(k="hof", name="pw", target=rng.choice(funcs), c=rng.choice(INTS), wrap=rng.choice(["partial", "lru"]))
+        if q < 0.30:
+            insts = [n for n, it in cur.items() if it["k"] == "inst"]
+            if insts:
+                return dict(k="bmc", name="bm", inst=rng.choice(insts), c=rng.choice(INTS))
+        if q < 0.33 and (funcs or classes):
+            pool = funcs + classes
+            ne = rng.choice([2, 2, 3])
+            return dict(k="container", name="tab", form="table", elems=[rng.choice(pool) for _ in range(ne)],
+                        keys=rng.sample(TABLE_KEYS, ne))
+        if q < 0.39:
             # variable annotation: creates / extends the module's __annotations__
             return dict(k="data", name=rng.choice(DN + ["W"]), val=rng.choice(["1", "2", "3"]), ann=rng.choice(["int", "object"]))
     if r < 0.04 and name is None:
@@ -136,12 +159,17 @@ def gen_item(rng, items, name=None):
             sup = False
             if kind == "plain" and bases and rng.random() < 0.5:
                 sup = any(any(m["name"] == mn and m["kind"] == "plain" for m in b["methods"]) for b in base_items)
-            methods.append(dict(name=mn, kind=kind, c=rng.choice(INTS), super=sup))
+            methods.append(dict(name=mn, kind=kind, c=rng.choice(INTS), super=sup,
+                                cc=(kind == "plain" and rng.random() < 0.3)))
         init = rng.random() < 0.5 and not bases
         if slots == ["v"]:
             init = True
-        return dict(k="class", name=nm, bases=bases, slots=slots,
-                    attrs={"K": rng.choice(["1", "2", "'q'"])} if rng.random() < 0.3 else {},
+        metas = [n for n, it in cur.items() if it["k"] == "metacls"]
+        meta = rng.choice([None, None, None, "abc", "abc", "enum"] + (["custom"] * 5 if metas else []))
+        at = {"K": rng.choice(["1", "2", "'q'"])} if rng.random() < 0.3 else {}
+        if rng.random() < 0.12:
+            at["T"] = rng.choice(HETERO)
+        return dict(k="class", name=nm, bases=bases, slots=slots, attrs=at, meta=meta, metaname=metas[0] if metas else None,
                     init=init, methods=methods, doc=rng.choice([None, None, "cdoc"]))
     if r < 0.93 and classes:
         c = rng.choice(classes)
@@ -207,6 +235,16 @@ def fixup(items):
                 it["slots"] = ["w"]
             if it.get("slots") == ["v"]:
                 it["init"] = True
+            # metaclasses: no class derives from an Enum with members; one metaclass per hierarchy
+            it["bases"] = [b for b in it["bases"] if cur[b].get("meta") != "enum"]
+            if it.get("meta") == "custom" and not (it.get("metaname") in cur and cur[it["metaname"]]["k"] == "metacls"):
+                it["meta"] = None
+            if it.get("meta") and any(cur[b].get("meta") for b in it["bases"]):
+                it["meta"] = None
+            if it.get("meta") == "enum":
+                it["bases"], it["slots"], it["init"], it["attrs"] = [], None, False, {}
+                for m in it["methods"]:
+                    m["super"] = False
         elif k == "inst":
             if not (it["cls"] in cur and cur[it["cls"]]["k"] == "class"):
                 continue
@@ -215,10 +253,24 @@ def fixup(items):
             if not hasdict:
                 it["extra"] = {}
             it["_arg_ok"] = _class_takes_arg(cur, it["cls"])
+            it["_enum"] = ci.get("meta") == "enum"
+            if it["_enum"]:
+                it["extra"] = {}
+        elif k == "bmc":
+            ii = cur.get(it["inst"])
+            if not (ii and ii["k"] == "inst" and ii["cls"] in cur and cur[ii["cls"]]["k"] == "class"):
+                continue
+            pm = [m["name"] for m in cur[ii["cls"]]["methods"] if m["kind"] == "plain"]
+            if not pm:
+                continue
+            it["meth"] = pm[0]
         elif k == "alias":
             if it["target"] not in cur or it["target"] == it["name"]:
                 continue
         elif k == "container":
+            if it["form"] == "table":
+                pairs = [(kk, e) for kk, e in zip(it.get("keys", []), it["elems"]) if e in cur and e != it["name"]]
+                it["keys"], it["elems"] = [p[0] for p in pairs], [p[1] for p in pairs]
             it["elems"] = [e for e in it["elems"] if e in cur and e != it["name"]]
             if not it["elems"]:
                 continue
@@ -286,12 +338,32 @@ def render_item(it):
         return [body]
     if k == "closure":
         return ["%s = %s(%s)" % (n, it["factory"], ", ".join(str(a) for a in it["args"]))]
+    if k == "hof" and it.get("wrap") == "partial":
+        return ["%s = functools.partial(%s, %d)" % (n, it["target"], it["c"])]
+    if k == "hof" and it.get("wrap") == "lru":
+        return ["%s = functools.lru_cache(None)(%s)" % (n, it["target"])]
+    if k == "metacls":
+        return ["class %s(type):\n    def tag(cls):\n        return %d" % (n, it["c"])]
+    if k == "odc":
+        return ["def _mk_%s():\n    reg = %s\n    def get(k='a'):\n        return reg[k] + %d\n    return get" % (n, it["ty"] % it["v"], it["c"]),
+                "%s = _mk_%s()" % (n, n)]
+    if k == "bmc":
+        return ["%s = (lambda fn: (lambda x=1: fn(x) + %d))(%s.%s)" % (n, it["c"], it["inst"], it["meth"])]
     if k == "hof":
         return ["%s = (lambda fn: (lambda x=1: (fn(x) if callable(fn) else fn) + %d))(%s)" % (n, it["c"], it["target"])]
     if k == "lambda":
         return ["%s = lambda x=1: x + %d" % (n, it["c"])]
     if k == "class":
-        lines = ["class %s(%s):" % (n, ", ".join(it["bases"])) if it["bases"] else "class %s:" % n]
+        hdr = list(it["bases"])
+        if it.get("meta") == "abc":
+            hdr.append("metaclass=abc.ABCMeta")
+        elif it.get("meta") == "custom":
+            hdr.append("metaclass=%s" % it["metaname"])
+        elif it.get("meta") == "enum":
+            hdr = ["enum.Enum"]
+        lines = ["class %s(%s):" % (n, ", ".join(hdr)) if hdr else "class %s:" % n]
+        if it.get("meta") == "enum":
+            lines.append("    RED = 1\n    BLUE = 2")
         if it.get("doc"):
             lines.append("    %r" % it["doc"])
         if it.get("slots") is not None:
@@ -308,6 +380,8 @@ def render_item(it):
                     expr += " + self.v"
                 if m.get("super"):
                     expr += " + super().%s(a)" % mn
+                if m.get("cc"):
+                    expr += " + len(__class__.__name__)"
                 lines.append("    def %s(self, a=1):\n        return %s" % (mn, expr))
             elif m["kind"] == "static":
                 lines.append("    @staticmethod\n    def %s(a=1):\n        return a + %d" % (mn, c))
@@ -319,6 +393,8 @@ def render_item(it):
             lines.append("    pass")
         return ["\n".join(lines)]
     if k == "inst":
+        if it.get("_enum"):
+            return ["%s = %s.RED" % (n, it["cls"])]
         out = ["%s = %s(%s)" % (n, it["cls"], it["arg"] if it.get("_arg_ok") and it["arg"] is not None else "")]
         for a, v in sorted(it.get("extra", {}).items()):
             out.append("%s.%s = %s" % (n, a, v))
@@ -331,6 +407,8 @@ def render_item(it):
             return ["%s = [%s]" % (n, ", ".join(es))]
         if it["form"] == "tuple":
             return ["%s = (%s,)" % (n, ", ".join(es))]
+        if it["form"] == "table":
+            return ["%s = {%s}" % (n, ", ".join("%s: %s" % (kk, e) for kk, e in zip(it["keys"], es)))]
         return ["%s = {%s}" % (n, ", ".join("%r: %s" % ("k%d" % i, e) for i, e in enumerate(es)))]
     raise ValueError(k)
 
@@ -339,6 +417,9 @@ def render(items):
     out = []
     for it in items:
         out.extend(render_item(it))
+    text = "\n".join(out)
+    if any(x in text for x in ("abc.", "enum.", "collections.", "functools.")):
+        out.insert(0, "import abc, enum, collections, functools")
     return out
 
 
@@ -411,6 +492,18 @@ def mutate(rng, items):
                     it["ann"] = "int"
             elif k == "pep562":
                 it["c"] = rng.choice(INTS)
+            elif k == "metacls":
+                it["c"] = rng.choice(INTS)
+            elif k == "odc":
+                w = rng.random()
+                if w < 0.5:
+                    it["v"] = rng.choice(INTS)
+                elif w < 0.8:
+                    it["c"] = rng.choice(INTS)
+                else:
+                    it["ty"] = rng.choice(REG_TYPES)
+            elif k == "bmc":
+                it["c"] = rng.choice(INTS)
             elif k == "func":
                 w = rng.random()
                 if w < 0.4:
@@ -477,8 +570,14 @@ def mutate(rng, items):
                     it["bases"] = [rng.choice(classes)] if classes and rng.random() < 0.7 else []
                 elif w < 0.90:
                     it["slots"] = rng.choice([None, ["v"], ["v", "u"], ["w"]])
-                elif w < 0.95:
+                elif w < 0.93:
                     it["init"] = not it["init"]
+                elif w < 0.96:
+                    it["meta"] = rng.choice([None, "abc", "enum", "custom"])
+                    it["metaname"] = "Meta"
+                elif w < 0.98 and it["methods"]:
+                    mm = rng.choice(it["methods"])
+                    mm["cc"] = not mm.get("cc")
                 else:
                     it["doc"] = rng.choice([None, "cdoc", "cdoc2"])
             elif k == "inst":
@@ -495,6 +594,14 @@ def mutate(rng, items):
                 pool = _defined(items, idx, ("func", "lambda", "class"))
                 if pool:
                     it["target"] = rng.choice(pool)
+            elif k == "container" and it["form"] == "table":
+                pool = _defined(items, idx, ("func", "lambda", "class"))
+                if rng.random() < 0.5 and pool:
+                    it["elems"] = [rng.choice(pool) for _ in it["keys"]]
+                else:
+                    ne = rng.choice([2, 3, 4])
+                    it["keys"] = rng.sample(TABLE_KEYS, ne)
+                    it["elems"] = [rng.choice(pool) for _ in range(ne)] if pool else []
             elif k == "container":
                 pool = _defined(items, idx, ("func", "lambda", "class", "data"))
                 if pool:
